@@ -46,7 +46,10 @@ class FuncInfo:
         return self.node.lineno
 
     def is_property(self):
-        return "property" in self.decorators
+        return "property" in self.decorators or self.is_cached_property()
+
+    def is_cached_property(self):
+        return any(d.split(".")[-1] == "cached_property" for d in self.decorators)
 
     def is_setter(self):
         return any(d.endswith(".setter") for d in self.decorators)
